@@ -432,6 +432,10 @@ def run(prog, rep, tier):
     rep.rule('HCFLAG-overlap-table', 'decision table of MPO.overlap over the two explicit_plus_hc '
              'flags: the one-sided cases differ by the conjugation of the hc term')
     check_overlap_table(prog, rep)
+    from ..flow import check_stale_loop_reads
+    rep.rule('LOOP-stale-read', 'no per-item variable is read in a loop before the iteration assigns '
+             'it when its only other bindings are inside other loops')
+    check_stale_loop_reads(prog, rep, ['tenpy/networks/mpo.py'])
     return rep.finish(
         level='other',
         explanation='Flag exhaustiveness over %d W-using MPO methods, flag forwarding of derived '
